@@ -128,7 +128,18 @@ fn cases() -> Vec<Bad> {
                 c.max_reg_count += 1;
                 c.output_regs.push(Reg((c.max_reg_count - 1) as u32));
             }));
+            v.push(with_circ("max_reg_count-zero-no-instructions", &|c| {
+                c.max_reg_count = 0;
+                c.insts.clear();
+                c.output_regs.clear();
+                c.and_ops = 0;
+            }));
+            v.push(with_circ("max_reg_count-zero", &|c| c.max_reg_count = 0));
             if std::env::var("PV_C18_HUGE").is_ok() {
+                v.push(with_circ("max_reg_count-usize-max", &|c| c.max_reg_count = usize::MAX));
+                v.push(with_circ("input_regs-sum-overflows", &|c| { let k = c.input_regs.len(); c.input_regs[k - 1] = usize::MAX; }));
+                v.push(with_circ("input_regs-huge", &|c| { let k = c.input_regs.len(); c.input_regs[k - 1] = 1 << 40; }));
+                v.push(with_circ("max_reg_count-huge", &|c| c.max_reg_count = 1 << 40));
                 // only in a child process (see run()): a failed allocation aborts the process
                 v.push(with_circ("and_ops-huge", &|c| c.and_ops = 1 << 40));
                 v.push(with_circ("and_ops-usize-max", &|c| c.and_ops = usize::MAX));
@@ -169,7 +180,9 @@ fn run_one(b: &Bad) -> Out {
         if let Some(cc) = &a.circ {
             if b.class.starts_with("counters:") {
                 if let Some(k) = cc.input_regs.get(*p) {
-                    a.inputs.resize(*k, true);
+                    if *k <= 1 << 20 {
+                        a.inputs.resize(*k, true);
+                    }
                 }
             }
         }
@@ -220,11 +233,12 @@ fn run_one(b: &Bad) -> Out {
 
 pub fn run(tier: &str, seed: u64) -> i32 {
     let mut rep = Report::new("C18", tier, seed, "exploration");
-    rep.rule = "every documented-invalid value of each mpc argument (own / evaluator / output index in {n, n+1, usize::MAX}, input length 0 / -1 / +1 / huge, empty, repeated and unsorted output sets) and circuit descriptions whose counters disagree with their instructions (and_ops wrong incl. 2^40 and usize::MAX in a child process, an output register that no instruction writes, Input after a gate, surplus Input, Input.party / Input.input out of range, max_reg_count too small, no outputs), used by one party or by all, n in {2,3}. Oracle: Err with 0 channel operations and no panic; repeated output indices: that, or the result of the de-duplicated set. distinct = (n, invalid-argument class, one/all parties); every case is non-trivial".into();
+    rep.rule = "every documented-invalid value of each mpc argument (own / evaluator / output index in {n, n+1, usize::MAX}, input length 0 / -1 / +1 / huge, empty, repeated and unsorted output sets) and circuit descriptions whose counters disagree with their instructions (and_ops wrong; and_ops / max_reg_count / input_regs of 2^40 and usize::MAX in a child process; max_reg_count 0; an output register that no instruction writes, Input after a gate, surplus Input, Input.party / Input.input out of range, max_reg_count too small, no outputs), used by one party or by all, n in {2,3}. Oracle: Err with 0 channel operations and no panic; repeated output indices: that, or the result of the de-duplicated set. distinct = (n, invalid-argument class, one/all parties); every case is non-trivial".into();
     if tier == "huge-child" {
         // child process: only the cases with huge counters; one line per case on stdout
-        let all: Vec<Bad> = cases().into_iter().filter(|b| b.class.contains("and_ops-huge") || b.class.contains("and_ops-usize-max")).collect();
+        let all: Vec<Bad> = cases().into_iter().filter(|b| b.class.contains("and_ops-huge") || b.class.contains("and_ops-usize-max") || b.class.contains("max_reg_count-usize-max") || b.class.contains("input_regs-sum-overflows") || b.class.contains("input_regs-huge") || b.class.contains("max_reg_count-huge")).collect();
         for b in &all {
+            println!("HUGE-BEGIN n={} {}", b.n, b.class);
             let o = run_one(b);
             println!("HUGE-CASE n={} {} => {}", o.n, o.class, match (&o.end, &o.sig) { (RunEnd::HarnessError(e), _) => format!("HARNESS {e}"), (_, Some(s)) => format!("VIOLATION {s}"), _ => "OK".to_string() });
         }
@@ -270,10 +284,11 @@ pub fn run(tier: &str, seed: u64) -> i32 {
                         if l.starts_with("HUGE-DONE") { done = true; }
                     }
                     if !done {
+                        let last_begun = text.lines().filter_map(|l| l.strip_prefix("HUGE-BEGIN ")).last().unwrap_or("?").to_string();
                         let err = String::from_utf8_lossy(&o.stderr);
                         let first = err.lines().find(|l| l.contains("memory allocation") || l.contains("panicked") || l.contains("overflow")).unwrap_or("").to_string();
                         rep.evaluations += 1;
-                        rep.violation("the process aborted on a circuit whose and_ops counter is far larger than its instructions (counters:and_ops-huge)".to_string(), json!({"exit_status": format!("{:?}", o.status), "stderr_line": first, "cases_completed_before": text.lines().filter(|l| l.starts_with("HUGE-CASE")).count()}));
+                        rep.violation(format!("the process aborted on a circuit with an absurd counter ({})", last_begun.split_whitespace().last().unwrap_or("?").rsplit_once(':').map(|x| x.0).unwrap_or("?")), json!({"case": last_begun, "exit_status": format!("{:?}", o.status), "stderr_line": first, "cases_completed_before": text.lines().filter(|l| l.starts_with("HUGE-CASE")).count()}));
                     }
                 }
                 Err(e) => rep.harness_error(format!("cannot start the child process for the huge-counter cases: {e}")),
